@@ -273,6 +273,8 @@ def families(tier, seed):
         fam("line-2-tomograms", "line", shapes("line", 6, (2, 3), D3), (T[1], T[4]), 2, False, seed, INV + BR_SMALL + ("chain-within-one-tomogram",)),
         fam("line-shifted", "line", shapes("line", 6, (2, 3), D3), (T[2],), 1, True, seed, INV + BR_SMALL[1:]),
     ]
+    from ..motlgen import with_row_index_kinds
+    fams.append(with_row_index_kinds(fams[-1], expect=INV))  # line-shifted x {gapped, reversed}
     if thorough:
         fams.append(fam("line-n5", "line", shapes("line", 6, (5,), D3), (T[4],), 1, False, seed, INV + BR_ALL))
         fams.append(fam("grid-n2-3", "grid", shapes("grid", 9, (2, 3), D3), T, 1, False, seed, INV + BR_SMALL[1:2]))
